@@ -168,3 +168,35 @@ Definition reported_header (r : response) (name : bytes) : bytes * bytes :=
 Definition returns_early_spec (cancel_ms response_ms : Z) : bool := cancel_ms <? response_ms.
 (* req = req.WithContext(ctx) is assigned to the parameter: the request in flight never sees the context *)
 Definition returns_early_pinned (cancel_ms response_ms : Z) : bool := false.
+
+(* ---------- the page's cookie collection: toDriverCookies puts every cookie of
+   resp.Cookies() into a collection keyed by name (HTTPCookies.Set), whatever its
+   value -- "legacy=; Max-Age=0" is a cookie with the empty value *)
+Fixpoint cookie_set (n v : bytes) (c : cookies) : cookies :=
+  match c with
+  | [] => [(n, v)]
+  | (k, x) :: r => if bytes_eqb n k then (n, v) :: r else (k, x) :: cookie_set n v r
+  end.
+Definition to_driver_cookies (l : cookies) : cookies :=
+  fold_left (fun acc kv => cookie_set (fst kv) (snd kv) acc) l [].
+Definition reported_cookies (r : response) : cookies := to_driver_cookies (r_cookies r).
+
+(* ---------- histories: several documents opened through one driver instance.
+   Open hands the driver's options to SetDefaultParams, which reads them and
+   writes only into the request's own parameter object; what is carried from one
+   request to the next is the driver with its option-level defaults *)
+Record drv := mkDrv { dv_headers : cfg; dv_cookies : cookies; dv_ua : bytes }.
+Record params := mkPar { pa_headers : cfg; pa_cookies : cookies; pa_ua : bytes }.
+(* what one request carries: the values under each looked-at name, cookies, user agent *)
+Definition sent := (list (list bytes) * cookies * bytes)%type.
+
+Definition open_spec (names : list bytes) (d : drv) (p : params) : drv * sent :=
+  (d, (map (wire_spec (dv_headers d) (pa_headers p)) names,
+       cookies_spec (dv_cookies d) (pa_cookies p),
+       ua_spec (dv_ua d) (pa_ua p))).
+
+Fixpoint history_spec (names : list bytes) (d : drv) (ps : list params) : list sent :=
+  match ps with
+  | [] => []
+  | p :: r => snd (open_spec names d p) :: history_spec names (fst (open_spec names d p)) r
+  end.
